@@ -4,6 +4,7 @@ impl BulletproofGens<P> {
     pub open spec fn wf(&self) -> bool {
         &&& self.shape_ok()
         &&& precomp_table(*self.precomp).len() == 2 * self.gens_capacity * self.party_capacity
+        &&& self.derived_ok()
     }
 }
 impl RangeStatement<P> {
@@ -19,7 +20,7 @@ pub proof fn lemma_wf_bounds(s: RangeStatement<P>)
     requires s.wf()
     ensures
         1 <= s.generators.bp_gens.gens_capacity <= 64,
-        1 <= s.generators.bp_gens.party_capacity <= u32::MAX,
+        1 <= s.generators.bp_gens.party_capacity <= 0x1_0000_0000,
         1 <= s.commitments@.len() <= s.generators.bp_gens.party_capacity,
         s.commitments@.len() * s.generators.bp_gens.gens_capacity <= s.generators.bp_gens.party_capacity * s.generators.bp_gens.gens_capacity,
         2 * s.generators.bp_gens.gens_capacity * s.generators.bp_gens.party_capacity <= 0x80_0000_0000,
@@ -30,7 +31,14 @@ pub proof fn lemma_wf_bounds(s: RangeStatement<P>)
     reveal_with_fuel(vstd::arithmetic::power2::is_pow2, 1);
     let n = s.generators.bp_gens.gens_capacity as int; let c = s.generators.bp_gens.party_capacity as int; let m = s.commitments@.len() as int;
     assert(m * n <= c * n) by(nonlinear_arith) requires m <= c, n >= 0;
-    assert(2 * n * c <= 2 * 64 * 0x1_0000_0000) by(nonlinear_arith) requires 0 <= n <= 64, 0 <= c <= 0xffff_ffff;
+    assert(2 * n * c <= 2 * 64 * 0x1_0000_0000) by(nonlinear_arith) requires 0 <= n <= 64, 0 <= c <= 0x1_0000_0000;
 }
 proof fn vx_canary_statement_wf(s: RangeStatement<P>) requires s.wf() ensures false { reveal(RangeStatement::ctor_ok); reveal(RangeParameters::ctor_ok); reveal(BulletproofGens::shape_ok); }
 proof fn vx_canary_axioms_v() ensures false { broadcast use group_ring, ax_scalar_bytes_len, ax_le32_len; }
+// C12: generator j of party i is the same point whatever capacity was requested (same bit length)
+//@ prop(C12) C12.lemma_capacity_independent
+pub proof fn lemma_capacity_independent(a: BulletproofGens<P>, b: BulletproofGens<P>, i: int, j: int)
+    requires a.wf(), b.wf(), a.gens_capacity == b.gens_capacity, 0 <= i < a.party_capacity, i < b.party_capacity, 0 <= j < a.gens_capacity
+    ensures a.g_vec@[i]@[j] == b.g_vec@[i]@[j], a.h_vec@[i]@[j] == b.h_vec@[i]@[j]
+{
+}
